@@ -14,6 +14,7 @@ def instances(tier):
         yield 'inc6', dict(BASE, max_len=6, win_end=12, emit_inv='EmitInc'), 'AlphaC08inc', None
         # command-line symbols whose names merely begin with the name of a symbol the ISA definition predefines (SYM2)
         yield 'core4-command-line-symbols', dict(BASE, max_len=4, win_end=12, defines=['SYM2X=5', 'SYM2_WIDE', 'XSYM2=1']), 'AlphaC08core', None
+        yield 'alias3', dict(BASE, max_len=15, win_end=12, blocks_op='BlocksAlias'), 'MCNoAlphabet', None
         yield 'core4-tabs', dict(BASE, max_len=4, win_end=12, directive_tabs=True), 'AlphaC08core', None
         yield 'nest5-tabs', dict(BASE, max_len=5, win_end=12, directive_tabs=True), 'AlphaC08nest', None
         yield 'wide3', dict(BASE, max_len=3, win_end=12), 'AlphaC08wide', None
@@ -23,6 +24,7 @@ def instances(tier):
         yield 'nest8', dict(BASE, max_len=8, win_end=12), 'AlphaC08nest', None
         yield 'inc7', dict(BASE, max_len=7, win_end=12, emit_inv='EmitInc'), 'AlphaC08inc', None
         yield 'core5-command-line-symbols', dict(BASE, max_len=5, win_end=12, defines=['SYM2X=5', 'SYM2_WIDE', 'XSYM2=1']), 'AlphaC08core', None
+        yield 'alias4', dict(BASE, max_len=20, win_end=16, blocks_op='BlocksAlias'), 'MCNoAlphabet', None
         yield 'core5-tabs', dict(BASE, max_len=5, win_end=12, directive_tabs=True), 'AlphaC08core', None
         yield 'nest7-tabs', dict(BASE, max_len=7, win_end=12, directive_tabs=True), 'AlphaC08nest', None
         yield 'wide4', dict(BASE, max_len=4, win_end=12), 'AlphaC08wide', None
